@@ -200,11 +200,12 @@ def handle (cmd : String) (args : List String) : Option String :=
         | _ => "shape=false ok=false eq=false blocks=0"
       else if fn == "hnd" then
         -- hypotheses `hnd` of C18.load_pos / pi_po_map (scan rows ++ _pi rows pairwise different) and of unload_pos / po_map
-        -- (_po rows ++ scan rows), and "interface names pairwise different" (then rows = first positions, C18.rows_unique_names)
+        -- (_po rows ++ scan rows), and "interface names pairwise different" (then rows = first positions, C18.rows_unique_names),
+        -- and `hports` (`File.portsOK`: scan-in / scan-out port names of the chains pairwise different, audit 2 A-C18-1)
         let mp := mapsPure m c f
         let sr := mp.chains.flatMap (·.map)
         let nd := fun (l : List Nat) => decide l.Nodup
-        s!"load={nd (sr ++ mp.pi)} unload={nd (mp.po ++ sr)} names={decide (c.intf m.intf).Nodup}"
+        s!"load={nd (sr ++ mp.pi)} unload={nd (mp.po ++ sr)} names={decide (c.intf m.intf).Nodup} ports={f.portsOK}"
       else "bad-fn"
   | _ => some "bad-args"
 
